@@ -327,6 +327,13 @@ pub fn generate(thorough: bool, seed: u64, out: &mut dyn Write) {
         }
         writeln!(out, "wredun redun={} {}", ps.join(","), m.tokens()).unwrap();
     }
+    // damaged encodings (`mut <seed> <k> write …`, Base/Mutate.lean) through parse -> write -> parse
+    let n = if thorough { 10000 } else { 200 };
+    for i in 0..n {
+        let o = GenOpts { max_meshes: if i % 3 == 0 { 3 } else { 2 }, max_vertices: 30, combos: WCOMBOS, v5_only: true, canonical: true };
+        let m = gen_model(&mut rng, &o);
+        writeln!(out, "mut {} {} write {}", rng.next() >> 1, 1 + rng.below(3), m.tokens()).unwrap();
+    }
     // free-layout histories (correspondence only, expected answer = the supplied geometry)
     let n = if thorough { 4000 } else { 80 };
     for i in 0..n {
@@ -517,7 +524,18 @@ fn run_inner(kind: &str, file: Vec<u8>, ops: Vec<Op>) -> String {
     if r.is_err() {
         return "panic@edit".into();
     }
+    // half of the cases write twice: the second buffer must be the first one again (writing does not
+    // change the handle)
+    let twice = file.len() % 2 == 0;
+    let w0 = if twice { std::panic::catch_unwind(std::panic::AssertUnwindSafe(|| m.write_to_buffer())).ok().flatten() } else { None };
     let w = std::panic::catch_unwind(std::panic::AssertUnwindSafe(|| m.write_to_buffer()));
+    if twice {
+        if let (Some(a), Ok(Some(b))) = (&w0, &w) {
+            if a != b {
+                return "unstable@write".into();
+            }
+        }
+    }
     let buf = match w {
         Err(_) => return "panic@write".into(),
         Ok(None) => return "none@write".into(),
@@ -532,7 +550,9 @@ fn run_inner(kind: &str, file: Vec<u8>, ops: Vec<Op>) -> String {
         Ok(None) => return "none@reparse".into(),
         Ok(Some(x)) => x,
     };
-    let mdeq = m1.model_data == m.model_data;
+    // `PartialEq` on the float fields makes a NaN differ from itself: fall back to the `Debug`
+    // rendering (every field, NaN printed as NaN) before calling the two unequal
+    let mdeq = m1.model_data == m.model_data || format!("{:?}", m1.model_data) == format!("{:?}", m.model_data);
     let mut fl = flags_text(edited, &file, &buf, mdeq, &m1);
     if kind == "editr" {
         // redundant header copies were perturbed: the in-bounds flag of the (unedited) header is
@@ -550,6 +570,9 @@ fn run_inner(kind: &str, file: Vec<u8>, ops: Vec<Op>) -> String {
 }
 
 pub fn run(case: &str, input: &str) -> String {
+    if input == "skip" {
+        return "skip".into();
+    }
     let f: Vec<&str> = input.split(' ').collect();
     if f.len() < 2 {
         return "bad-case".into();
